@@ -74,7 +74,8 @@ def fieldSpOfJson (j : Json) : Except String FieldSp := do
     | "assign" => pure Mode.assign
     | s => throw s!"mode {s}"
   pure { name := ← (← j.getObjVal? "name").getStr?, mode, ty := ← spOfJson (← j.getObjVal? "ty"),
-         dflt := ← dfltOfJson j, inOptional := ← optBool j "inOptional" false }
+         dflt := ← dfltOfJson j, inOptional := ← optBool j "inOptional" false,
+         quoted := ← optBool j "quoted" false, unresolved := ← optBool j "unresolved" false }
 
 /-! encoding of declarations in the format of `harness/dump.dump_field` -/
 
@@ -148,13 +149,18 @@ def runVariant (O : Oracles) (j : Json) : Except String Json := do
   let future ← optBool j "future" false
   let fields ← (← (← j.getObjVal? "fields").getArr?).toList.mapM fieldSpOfJson
   let tm := Pinned.typeMap
-  let c : ClassSp := { future, fields }
+  let scope ← match ← optStr j "scope" with
+    | some "function" => pure Scope.function
+    | some "nested" => pure Scope.nested
+    | some "enclosing" => pure Scope.enclosing
+    | _ => pure Scope.module
+  let c : ClassSp := { future, fields, scope }
   let perField := fields.map fun fs =>
     Json.mkObj [("name", Json.str fs.name),
-                ("res", fieldResToJson (elabField O tm future fs)),
+                ("res", fieldResToJson (elabFieldAt scope O tm future fs)),
                 ("meaning", fieldResToJson (fieldMeaning O fs)),
                 ("annLen", Json.num (Lean.JsonNumber.fromNat (annLenField fs))),
-                ("supported", Json.bool (fieldSupported O tm future fs))]
+                ("supported", Json.bool (fieldSupportedAt O tm scope future fs))]
   pure (Json.mkObj [("cls", classResToJson (elabClass O tm c)),
                     ("fields", Json.arr perField.toArray),
                     ("supported", Json.bool (classSupported O tm c))])
